@@ -163,6 +163,9 @@ func loadVodRep(initPath, glob string) (*vodRep, error) {
 // ---------------------------------------------------------------- assets
 
 type assetDesc struct {
+	// AudioRep / RefRep: representation ids of the audio track under test and of the reference track, for assets
+	// whose reference is an audio track itself (no video); empty = first audio / first video adaptation set
+	AudioRep, RefRep string
 	Name      string // label used in case inputs and Coq definitions
 	Scratch   bool
 	URLPath   string
@@ -386,9 +389,66 @@ func genAssets(rng *rand.Rand, nRand int) []lib.GenAsset {
 	return out
 }
 
+// audioOnlyAssets: assets without video. The first audio representation is the reference; every further audio
+// representation (other frame size, other segmentation) has to follow ITS segment boundaries, and the
+// reference itself is re-segmented along its own boundaries (identity).
+func audioOnlyAssets(rng *rand.Rand, nRand int) []lib.GenAsset {
+	ac3 := func(id string, frames ...int) lib.GenRep { return lib.AudioRep(id, 1536, lib.FrameDurs(1536, frames...)) }
+	aac := func(id string, frames ...int) lib.GenRep { return lib.AudioRep(id, 1024, lib.FrameDurs(1024, frames...)) }
+	out := []lib.GenAsset{
+		// AAC reference (4 x ~2 s), AC-3 on its own grid, AAC in one 8 s segment
+		{Name: "gao1", Reps: []lib.GenRep{aac("A1", 94, 94, 94, 93), ac3("A2", 62, 63, 62, 63), aac("A3", 375)}},
+		// AC-3 reference (3 segments), AAC on another grid
+		{Name: "gao2", Reps: []lib.GenRep{ac3("A1", 100, 50, 100), aac("A2", 200, 175)}},
+	}
+	for i := 0; i < nRand; i++ {
+		// total 2*k AC-3 frames = 3*k AAC frames (same duration to the tick); every segment longer than 1.1 s
+		// (an average segment duration below one second makes LiveMPD print unparsable xs:duration values,
+		// e.g. minimumUpdatePeriod="PT832000000\ufffdS" - outside this property, reported to the lead)
+		k := 40 + rng.Intn(100)
+		split := func(total, minPer int) []int {
+			m := 1 + rng.Intn(4)
+			if m > total/minPer {
+				m = total / minPer
+			}
+			fr := make([]int, m)
+			for j := range fr {
+				fr[j] = minPer
+			}
+			for j := 0; j < total-m*minPer; j++ {
+				fr[rng.Intn(m)]++
+			}
+			return fr
+		}
+		r1, r2 := aac("A1", split(3*k, 52)...), ac3("A2", split(2*k, 35)...)
+		if rng.Intn(2) == 0 {
+			r1, r2 = ac3("A1", split(2*k, 35)...), aac("A2", split(3*k, 52)...)
+		}
+		r2.Frags = 1 + rng.Intn(2)
+		out = append(out, lib.GenAsset{Name: fmt.Sprintf("gaor%d", i), Reps: []lib.GenRep{r1, r2}})
+	}
+	return out
+}
+
 func buildScratch(root string, rng *rand.Rand, nRand int) ([]assetDesc, []string, error) {
 	var out []assetDesc
 	var notes []string
+	for _, ga := range audioOnlyAssets(rng, (nRand+2)/3) {
+		if ok, why := ga.PredictAdmission(); !ok {
+			notes = append(notes, fmt.Sprintf("generated asset %s not used (%s)", ga.Name, why))
+			continue
+		}
+		if err := lib.WriteAsset(root, ga); err != nil {
+			notes = append(notes, fmt.Sprintf("generated asset %s could not be written: %v", ga.Name, err))
+			continue
+		}
+		ref := ga.Reps[0].ID
+		for _, rp := range ga.Reps {
+			out = append(out, assetDesc{Name: ga.Name + "_" + rp.ID, Scratch: true, URLPath: ga.Name, MPD: "Manifest.mpd", Dir: ga.Name,
+				AudioRep: rp.ID, RefRep: ref,
+				AudioInit: rp.ID + "/init.mp4", AudioGlob: rp.ID + "/*.m4s", VideoInit: ref + "/init.mp4", VideoGlob: ref + "/*.m4s"})
+		}
+	}
 	for _, ga := range genAssets(rng, nRand) {
 		if ok, why := ga.PredictAdmission(); !ok {
 			notes = append(notes, fmt.Sprintf("generated asset %s not used (%s)", ga.Name, why))
@@ -495,6 +555,9 @@ func loadAsset(d assetDesc, root string, ls *lib.Livesim) (*assetState, error) {
 		for _, p := range mp.Periods {
 			for _, a := range p.AdaptationSets {
 				if string(a.ContentType) != "audio" && !strings.HasPrefix(a.MimeType, "audio") {
+					continue
+				}
+				if d.AudioRep != "" && (len(a.Representations) == 0 || a.Representations[0].Id != d.AudioRep) {
 					continue
 				}
 				codecs := a.Codecs
@@ -647,6 +710,15 @@ func fillT(t, rep string, v uint64) string {
 	return strings.ReplaceAll(s, "$Time$", fmt.Sprint(v))
 }
 
+// fallbackTmpl: the known $Number$ template of a scratch asset, used when its MPD cannot be had
+func (as *assetState) fallbackTmpl() *tmpl {
+	a, v := "A48", "V300"
+	if as.d.RefRep != "" {
+		a, v = as.d.AudioRep, as.d.RefRep
+	}
+	return &tmpl{audio: "$RepresentationID$/$Number$.m4s", audioRep: a, video: "$RepresentationID$/$Number$.m4s", videoRep: v}
+}
+
 func (as *assetState) mpdURL(prefix string, nowMS int64) string {
 	return fmt.Sprintf("/livesim2/%s%s/%s?nowMS=%d", prefix, as.d.URLPath, as.d.MPD, nowMS)
 }
@@ -675,17 +747,18 @@ func (as *assetState) getTmpl(prefix string, nowMS int64) (*tmpl, error) {
 			if st.SegmentTimeline != nil {
 				tl = st.SegmentTimeline.S
 			}
-			switch string(a.ContentType) {
-			case "audio":
-				if t.audio == "" {
-					t.audio, t.audioRep, t.audioTL, t.audioTS = st.Media, a.Representations[0].Id, tl, ts
-				}
-			case "video":
-				if t.video == "" {
-					t.video, t.videoRep, t.videoTL, t.videoTS = st.Media, a.Representations[0].Id, tl, ts
-					if st.StartNumber != nil {
-						t.startNr = int64(*st.StartNumber)
-					}
+			rid := a.Representations[0].Id
+			isAudio, isRef := string(a.ContentType) == "audio", string(a.ContentType) == "video"
+			if as.d.RefRep != "" {
+				isAudio, isRef = rid == as.d.AudioRep, rid == as.d.RefRep
+			}
+			if isAudio && t.audio == "" {
+				t.audio, t.audioRep, t.audioTL, t.audioTS = st.Media, rid, tl, ts
+			}
+			if isRef && t.video == "" {
+				t.video, t.videoRep, t.videoTL, t.videoTS = st.Media, rid, tl, ts
+				if st.StartNumber != nil {
+					t.startNr = int64(*st.StartNumber)
 				}
 			}
 		}
@@ -918,7 +991,7 @@ func (r *run) numberRun(as *assetState, prefix string, n0 int64, L int) {
 			return
 		}
 		// the segments of a scratch asset are still requested (known template, default start number)
-		t = &tmpl{audio: "$RepresentationID$/$Number$.m4s", audioRep: "A48", video: "$RepresentationID$/$Number$.m4s", videoRep: "V300"}
+		t = as.fallbackTmpl()
 	}
 	var prev *audioObs
 	for n := n0; n < n0+int64(L); n++ {
@@ -1114,7 +1187,7 @@ func (r *run) historyRun(as *assetState, n int64, variants []string) {
 		if !as.d.Scratch {
 			return
 		}
-		t = &tmpl{audio: "$RepresentationID$/$Number$.m4s", audioRep: "A48", video: "$RepresentationID$/$Number$.m4s", videoRep: "V300"}
+		t = as.fallbackTmpl()
 	}
 	nr := n + t.startNr
 	s0, e0 := as.refSeg(n)
